@@ -82,11 +82,13 @@ CreateOutcome(m, start, comps, kind) ==
    IF HasSpecial(comps) THEN [ooc |-> TRUE, mand |-> {}, space |-> NoSpace, fx |-> [t |-> "none"]]
    ELSE IF r.err = "empty" THEN [ooc |-> FALSE, mand |-> {"InvalidFileNameLength"}, space |-> NoSpace, fx |-> [t |-> "none"]]
    ELSE IF r.err # "none" THEN [ooc |-> FALSE, mand |-> {r.err}, space |-> NoSpace, fx |-> [t |-> "none"]]
+   \* C15: the name decides whether it is acceptable, not the directory: an invalid name is rejected with a name error even when its
+   \* upper-case form is that of an existing entry (130 dotless i are 260 bytes, and fold to 130 I)
+   ELSE IF NameErrors(r.last) # {} THEN [ooc |-> FALSE, mand |-> NameErrors(r.last), space |-> NoSpace, fx |-> [t |-> "none"]]
    ELSE IF r.hit # {} THEN
         LET i == CHOOSE x \in r.hit : TRUE IN
         IF m.nodes[i].kind # kind THEN [ooc |-> FALSE, mand |-> {"InvalidInput"}, space |-> NoSpace, fx |-> [t |-> "none"]]
         ELSE [ooc |-> kind = "f" /\ i \in OpenNodes(m), mand |-> {}, space |-> NoSpace, fx |-> [t |-> "open", node |-> i]]
-   ELSE IF NameErrors(r.last) # {} THEN [ooc |-> FALSE, mand |-> NameErrors(r.last), space |-> NoSpace, fx |-> [t |-> "none"]]
    ELSE [ooc |-> FALSE, mand |-> {},
          space |-> [par |-> r.par, slots |-> SlotsFor(r.last), clusters |-> IF kind = "d" THEN 2 ELSE 1],
          fx |-> [t |-> "create", par |-> r.par, name |-> r.last, kind |-> kind]]
@@ -126,8 +128,8 @@ RenameOutcome(m, start, comps, dstart, dcomps) ==
        derr == IF d.err = "empty" THEN {"InvalidFileNameLength"} ELSE IF d.err # "none" THEN {d.err} ELSE {}
        src  == IF serr = {} THEN CHOOSE x \in s.hit : TRUE ELSE -1
        same == serr = {} /\ derr = {} /\ d.hit = {src}
-       dname == IF derr = {} /\ d.hit = {} THEN NameErrors(d.last) ELSE {}
-       exists == IF derr = {} /\ d.hit # {} /\ ~same THEN {"AlreadyExists"} ELSE {}
+       dname == IF derr = {} THEN NameErrors(d.last) ELSE {}            \* (C15: whether or not something answers to that name)
+       exists == IF derr = {} /\ dname = {} /\ d.hit # {} /\ ~same THEN {"AlreadyExists"} ELSE {}
        \* a directory cannot become its own descendant (no in-memory tree can do that)
        cyc == IF serr = {} /\ derr = {} /\ ~same /\ m.nodes[src].kind = "d" /\ IsAncestorOrSelf(m, src, d.par, 64)
               THEN {"InvalidInput"} ELSE {}
